@@ -416,7 +416,7 @@ class C15(SmallSuite):
         if fam0 in ("Hill", "Shekel") and rng.random() < 0.3 and len(members) >= 2:
             # both one-dimensional families tabulated over one shared list of Point objects, same function number
             k0, k1 = list(members)[:2]
-            n0 = members[k0]["args"][0]
+            n0 = rng.randint(0, 999)
             members[k0] = {"cls": "Hill", "args": [n0]}
             members[k1] = {"cls": "Shekel", "args": [n0]}
             pts[k1] = [{"kind": "frac", "t": [float("%.3g" % (0.02 + 0.09 * rng.random()))] * 5} for _ in range(2)]    # inside [0,1] of both boxes
